@@ -67,7 +67,7 @@ W, F0, F1 = make_world()
 ROWS = [  # (tag, slot, X, Y, Z)
     (10, 0, 3.3, 3.6, 2.0),   # the victim: first in the file, so its removal shifts everybody else's index
     (11, 0, 3.7, 2.4, 14.0),
-    (12, 0, 2.6, 5.2, 33.0),
+    (12, 0, 3.45, 5.2, 33.0),  # pushed against the island at rho cell (4,5): its move is cancelled step after step
     (13, 2, 4.4, 3.1, 7.0),   # late release
 ]
 
